@@ -98,6 +98,7 @@ type decEvent struct {
 	Re    *redec            `json:"re,omitempty"`    // decoding the encoding again
 	Long  bool              `json:"long,omitempty"`  // input longer than 300 bytes (not reproduced in the trace)
 	NilRx bool              `json:"nilrx,omitempty"` // decoded through a nil receiver
+	Rep0  string            `json:"rep0,omitempty"`  // orders (C15): fields of the report built WITHOUT options
 }
 
 type proj struct {
